@@ -510,7 +510,28 @@ def _inline_generator_loops(repo: Repo, view: FuncInfo) -> bool:
                     return True
             return False
 
-        if escapes(st.body) or not tail_yields(f):
+        def continues(stmts: list[ast.stmt]) -> bool:
+            for x in stmts:
+                if isinstance(x, ast.Continue):
+                    return True
+                if isinstance(x, (ast.For, ast.While, ast.FunctionDef, ast.AsyncFunctionDef)):
+                    continue
+                for fld in ("body", "orelse", "finalbody"):
+                    if continues(getattr(x, fld, []) or []):
+                        return True
+                if isinstance(x, ast.Try) and any(continues(h.body) for h in x.handlers):
+                    return True
+            return False
+
+        def yield_outside_loops(stmts: list[ast.stmt]) -> bool:
+            for x in stmts:
+                if isinstance(x, ast.Expr) and isinstance(x.value, ast.Yield):
+                    return True
+                if isinstance(x, ast.If) and (yield_outside_loops(x.body) or yield_outside_loops(x.orelse)):
+                    return True
+            return False
+
+        if escapes(st.body) or not tail_yields(f) or (continues(st.body) and yield_outside_loops(f.node.body)):
             return None
         a = f.node.args
         pos = [p_.arg for p_ in [*a.posonlyargs, *a.args]]
@@ -1235,6 +1256,13 @@ def build(repo: Repo, fi: FuncInfo) -> SearchModel | None:
             inner = resolve(e.generators[0].iter, depth + 1)
             if inner is not None:
                 return inner + [(c, e.generators[0].target.id) for c in e.generators[0].ifs]
+        if isinstance(e, ast.Call) and not e.keywords and len(e.args) == 2 and dotted(e.func).split(".")[-1] in ("filter", "filterfalse") and isinstance(e.args[0], ast.Lambda):
+            lam = e.args[0]
+            if len(lam.args.args) == 1 and not (lam.args.posonlyargs or lam.args.kwonlyargs or lam.args.vararg or lam.args.kwarg):
+                inner = resolve(e.args[1], depth + 1)
+                if inner is not None:
+                    cond = lam.body if dotted(e.func).split(".")[-1] == "filter" else _negated(lam.body)
+                    return inner + [(cond, lam.args.args[0].arg)]
         return None
 
     iters: list[NeighbourIter] = []
